@@ -125,18 +125,22 @@ static const char * kSolvers[] = {"IncrementalPruning", "Witness", "LinearSuppor
 using SparseModel = P::SparseModel<AIToolbox::MDP::SparseModel>;
 
 template <class M>
-static P::ValueFunction solveWith(Rng & rng, int which, const M & model, const PomdpTables & pt, unsigned h, double tol) {
+static P::ValueFunction solveWith(Rng & rng, int which, const M & model, const PomdpTables & pt, unsigned h, double tol, size_t fewBeliefs = 0) {
     switch (which) {
         case 0: { P::IncrementalPruning s(h, tol); return std::get<1>(s(model)); }
         case 1: { P::Witness s(h, tol); return std::get<1>(s(model)); }
         case 2: { P::LinearSupport s(h, tol); return std::get<1>(s(model)); }
         case 3: {
-            P::PBVI s(8, h, tol);
-            if (rng.coin()) { auto bl = someBeliefs(rng, pt.S, pt.S + 1 + rng.below(6)); return std::get<1>(s(model, bl)); }
+            P::PBVI s(fewBeliefs ? fewBeliefs : 8, h, tol);
+            if (fewBeliefs && rng.coin()) {           // a sparse explicit support: fewer beliefs than |S|+1, no corners guaranteed
+                std::vector<AIToolbox::Vector> bl; for (size_t i = 0; i < fewBeliefs; ++i) bl.push_back(dyadicBelief(rng, pt.S));
+                return std::get<1>(s(model, bl));
+            }
+            if (!fewBeliefs && rng.coin()) { auto bl = someBeliefs(rng, pt.S, pt.S + 1 + rng.below(6)); return std::get<1>(s(model, bl)); }
             return std::get<1>(s(model));
         }
         case 4: {
-            P::PERSEUS s(6 + rng.below(6), h, tol);
+            P::PERSEUS s(fewBeliefs ? fewBeliefs : 6 + rng.below(6), h, tol);
             double minR = pt.R.minCoeff();
             return std::get<1>(s(model, minR));
         }
@@ -144,12 +148,13 @@ static P::ValueFunction solveWith(Rng & rng, int which, const M & model, const P
     }
 }
 
-static void runSolver(Rng & rng, int which, const PomdpTables & pt, unsigned h, double tol = 0.0, bool sparse = false) {
+static void runSolver(Rng & rng, int which, const PomdpTables & pt, unsigned h, double tol = 0.0, bool sparse = false, size_t fewBeliefs = 0) {
     Model model = toDense(pt);
     AIToolbox::Seeder::setRootSeed((unsigned)rng.below(1u << 30));
     P::ValueFunction vf;
-    if (sparse) { SparseModel sm(model); vf = solveWith(rng, which, sm, pt, h, tol); std::printf("#stat sparse 1\n"); }
-    else vf = solveWith(rng, which, model, pt, h, tol);
+    if (sparse) { SparseModel sm(model); vf = solveWith(rng, which, sm, pt, h, tol, fewBeliefs); std::printf("#stat sparse 1\n"); }
+    else vf = solveWith(rng, which, model, pt, h, tol, fewBeliefs);
+    if (fewBeliefs) std::printf("#stat few_beliefs:%zu 1\n#stat long_horizon:%u 1\n", fewBeliefs, h);
     emitVF(kSolvers[which], h, pt, vf, someBeliefs(rng, pt.S, pt.S + 4));
 }
 
@@ -289,13 +294,8 @@ static void emitWV(Rng & rng) {
 
 // PERSEUS draws its beliefs from a BeliefGenerator seeded by the global Seeder: re-seeding reproduces the same list, so the
 // whole run can be compared with the Lean model `perseusRun`
-static void emitPERSEUS(Rng & rng) {
-    size_t S = 2 + rng.below(3), A = 1 + rng.below(3), O = rng.coin() ? 2 : 1;
-    unsigned h = 1 + (unsigned)rng.below(3);
-    auto pt = randomPomdp(rng, S, A, O);
+static void emitPERSEUSOn(const PomdpTables & pt, size_t nB, unsigned h, unsigned seed) {
     Model model = toDense(pt);
-    unsigned seed = (unsigned)rng.below(1u << 30);
-    size_t nB = S + 1 + rng.below(5);
     AIToolbox::Seeder::setRootSeed(seed);
     P::PERSEUS solver(nB, h, 0.0);
     auto vf = std::get<1>(solver(model, pt.R.minCoeff()));
@@ -306,6 +306,36 @@ static void emitPERSEUS(Rng & rng) {
     Line l; l << "C04" << "perseus"; putPomdp(l, pt); l << (size_t)bl.size();
     for (const auto & b : bl) putVector(l, b);
     l << (double)vf[0][0].values[0] << h << "|"; putVF(l, vf); l.emit();
+}
+
+// regression model of seeded change C04-2: 3 states, 3 actions, 2 observations, deterministic transitions; on it a PERSEUS
+// backup at a support belief can be worse than the previous horizon's value when the support is sparse (nBeliefs 2, 3)
+static PomdpTables regressingTables() {
+    PomdpTables p; p.S = 3; p.A = 3; p.O = 2; p.discount = 0.9;
+    const int target[3][3] = { {0, 2, 0}, {1, 0, 2}, {0, 1, 0} };
+    const int reward[3][3] = { {-2, 2, -3}, {3, 5, -5}, {3, -4, 5} };
+    const int obs[3][3]    = { {2, 2, 1}, {2, 1, 1}, {0, 2, 2} };
+    p.T.assign(3, AIToolbox::Matrix2D::Zero(3, 3)); p.R = AIToolbox::Matrix2D::Zero(3, 3); p.Ob.assign(3, AIToolbox::Matrix2D::Zero(3, 2));
+    for (size_t s = 0; s < 3; ++s) for (size_t a = 0; a < 3; ++a) {
+        p.T[a](s, target[s][a]) = 1.0; p.R(s, a) = reward[s][a];
+        double w0 = obs[s][a] == 0 ? 0.8 : (obs[s][a] == 1 ? 0.2 : 0.5);
+        p.Ob[a](s, 0) = w0; p.Ob[a](s, 1) = 1.0 - w0;
+    }
+    return p;
+}
+
+static void emitPERSEUS(Rng & rng) {
+    size_t S = 2 + rng.below(3), A = 1 + rng.below(3), O = rng.coin() ? 2 : 1;
+    unsigned h = 1 + (unsigned)rng.below(3);
+    size_t nB = S + 1 + rng.below(5);
+    if (rng.coin(2, 3)) {                                  // sparse support, many horizons (a later backup can regress at a support belief)
+        nB = 1 + rng.below(3); h = 4 + (unsigned)rng.below(5);
+        if (rng.coin(1, 4)) { O = 3; h = std::min(h, 6u); }
+        if (rng.coin()) { S = 3; A = 2 + rng.below(2); }
+        std::printf("#stat perseus_few_beliefs:%zu 1\n", nB);
+    }
+    auto pt = randomPomdp(rng, S, A, O);
+    emitPERSEUSOn(pt, nB, h, (unsigned)rng.below(1u << 30));
 }
 
 // LinearSupport, one timestep at a time: the real run gives the levels; the vertex lists the real findVerticesNaive hands
@@ -386,6 +416,15 @@ static void emitPBVI(Rng & rng) {
     Model model = toDense(pt);
     auto bl = someBeliefs(rng, S, 1 + rng.below(S + 3));
     if (rng.coin(1, 3)) bl.erase(bl.begin(), bl.begin() + std::min<size_t>(bl.size() - 1, S));   // drop the corners sometimes
+    if (O <= 2 && rng.coin(1, 2)) {                        // sparse support (1..3 beliefs, corners not guaranteed), horizons 4..8
+        bl.clear(); size_t nB = 1 + rng.below(3);
+        for (size_t i = 0; i < nB; ++i) {
+            if (rng.coin(1, 3)) { AIToolbox::Vector c = AIToolbox::Vector::Zero(S); c[rng.below(S)] = 1.0; bl.push_back(c); }
+            else bl.push_back(dyadicBelief(rng, S));
+        }
+        h = 4 + (unsigned)rng.below(5);
+        std::printf("#stat pbvi_few_beliefs:%zu 1\n", nB);
+    }
     P::PBVI solver(bl.size(), h, 0.0);
     auto vf = std::get<1>(solver(model, bl));
     Line l; l << "C04" << "pbvi"; putPomdp(l, pt); l << (size_t)bl.size();
@@ -401,7 +440,11 @@ void verif::verif_case(Rng & rng, long idx, const std::string & tier) {
     if (idx == 0) { runSolver(rng, 5, witnessQmdp(), 2); return; }           // known finding witness
     if (idx == 1) { runSolver(rng, 5, witnessQmdp(), 1); return; }           // QMDP with VI horizon 1 IS a one-step plan
     if (idx >= 2 && idx < 7) { runSolver(rng, (int)idx - 2, tigerTables(), 3); return; }
-    if (idx == 7) { runSolver(rng, 0, tigerTables(), 4); return; }
+    if (idx == 7) {
+        runSolver(rng, 0, tigerTables(), 4);
+        for (size_t nB : {2, 3, 20}) emitPERSEUSOn(regressingTables(), nB, 8, 7);
+        return;
+    }
     if (idx >= 8 && idx < kFixed) { for (int k = 0; k < 12; ++k) { emitXD(rng); emitPR(rng); emitCS(rng); emitPJ(rng); emitPBVI(rng); emitWV(rng); emitPERSEUS(rng); emitLS(rng); } return; }
     long r = idx - kFixed;
     int which = (int)(r % 6);
@@ -415,9 +458,15 @@ void verif::verif_case(Rng & rng, long idx, const std::string & tier) {
     auto pt = ugly ? uglyPomdp(rng, S, A, O) : randomPomdp(rng, S, A, O);
     if (ugly) std::printf("#stat ugly 1\n");
     double tol = (rng.coin(1, 8)) ? 0.5 : 0.0;                                // early stop on tolerance: shorter value function
+    // point-based solvers on a SPARSE support (fewer beliefs than |S|+1) over many horizons: backups may regress there
+    size_t fewBeliefs = 0;
+    if ((which == 3 || which == 4) && rng.coin(1, 2)) {
+        fewBeliefs = 1 + rng.below(3); h = 4 + (unsigned)rng.below(5); tol = 0.0;
+        if (O == 3) h = std::min(h, 6u);
+    }
     if (std::getenv("VERIF_DEBUG")) std::fprintf(stderr, "case %ld: %s S=%zu A=%zu O=%zu h=%u ugly=%d sparse=%d tol=%g\n", idx, kSolvers[which], S, A, O, h, (int)ugly, (int)sparse, tol);
-    runSolver(rng, which, pt, h, tol, sparse);
-    if (r % 10 == 0) { emitXD(rng); emitPR(rng); emitCS(rng); emitPJ(rng); emitPBVI(rng); emitWV(rng); emitPERSEUS(rng); emitLS(rng); }
+    runSolver(rng, which, pt, h, tol, sparse, fewBeliefs);
+    if (r % 10 == 0) { emitXD(rng); emitPR(rng); emitCS(rng); emitPJ(rng); emitPBVI(rng); emitWV(rng); emitPERSEUS(rng); emitPERSEUS(rng); emitLS(rng); }
 }
 
 VERIF_MAIN
